@@ -379,6 +379,28 @@ def rule_r4(ck, prog, rule='C19.R4', cls='sdk::instrumentationscope::ScopeConfig
                 ok = True
     ck.verdict(ok, rule, f, 'first-match-wins', None, 'conditions in insertion order, first match returns, default after the loop' if ok else
                'ScopeConfigurator::Builder::Build does not return the config of the first matching condition in insertion order with the default after the loop')
+    # Build leaves the builder as it was (a builder is routinely kept and built from more than once): no member is moved from,
+    # assigned or mutated through a non-const call
+    culprit = None
+    for n in f.nodes:
+        tgt = None
+        what = None
+        if n['k'] == 'call' and strip_targs(n.get('c', '') or '') in ('std::move', 'std::exchange', 'std::swap') and n.get('args'):
+            tgt, what = n['args'][0], 'moved from'
+        elif n['k'] == 'binop' and n['op'].endswith('=') and n['op'] not in ('==', '!=', '<=', '>='):
+            tgt, what = n['lhs'], 'assigned'
+        elif n['k'] == 'call' and n.get('obj') is not None and not n.get('cconst') and \
+                strip_targs(n.get('c', '')).rsplit('::', 1)[-1] not in ('operator->', 'operator*', 'get', 'operator bool', 'begin', 'end', 'operator[]', 'size'):
+            tgt, what = n['obj'], 'modified'
+        if tgt is None:
+            continue
+        ap = access_path(f, tgt)
+        if ap and ap[0] == 'this' and len(ap) >= 2:
+            culprit = (n, ap, what)
+            break
+    ck.verdict(culprit is None, rule, f, 'build-leaves-builder-intact', culprit[0] if culprit else None,
+               'Build reads the builder only' if culprit is None else
+               'ScopeConfigurator::Builder::Build leaves %s %s: a second Build() on the same builder (or AddCondition + Build) yields a configurator without the earlier rules, and the scopes they disable produce telemetry' % (path_str(culprit[1]), culprit[2]))
     # closures stored by the builder capture no borrowing type
     rec_funcs = [x for x in prog.funcs.values() if strip_targs(x.qn).startswith('opentelemetry::' + cls + '::Builder::') and not x.d.get('lambda')]
     seen = set()
@@ -543,6 +565,27 @@ def rule_r6(ck, prog, rule='C19.R6'):
         rm = [n for n in f.nodes if n['k'] == 'call' and strip_targs(n.get('c', '')) == 'std::regex_match']
         ok = len(rm) == 1
         ck.verdict(ok, rule, f, '%s-uses-regex_match' % nm, rm[0] if rm else None, 'whole-string regex_match' if ok else '%s does not decide by a whole-string regex_match (regex_search would accept any name containing a valid one)' % nm)
+    # so does the pattern selector of a view: a pattern that matches a *part* of a name would select every instrument containing it
+    f = prog.function('sdk::metrics::PatternPredicate::Match')
+    calls = [n for n in f.nodes if n['k'] == 'call' and strip_targs(n.get('c', '')).startswith('std::regex_')]
+    rets = [n for n in f.nodes if n['k'] == 'return' and n.get('e') is not None and n['e'] >= 0]
+    if not calls:
+        ck.inconclusive(rule, f, 'pattern-selector-matches-whole-name', None, 'the pattern predicate does not use a std::regex algorithm')
+    else:
+        bad = [n for n in calls if strip_targs(n['c']) != 'std::regex_match']
+        whole = True
+        for n in calls:
+            if strip_targs(n['c']) != 'std::regex_match':
+                continue
+            # the iterator / pointer range is the whole view: begin()/data() .. end()/data()+size()
+            names_ = [strip_targs(f.nodes[i].get('c', '')).rsplit('::', 1)[-1] for a in n['args'][:2] if a is not None and a >= 0 for i in list(f.subtree(a)) + [a] if f.nodes[i]['k'] == 'call']
+            if len(n.get('args', [])) >= 3 and not ({'begin', 'end'} <= set(names_) or {'data', 'size'} <= set(names_) or {'cbegin', 'cend'} <= set(names_)):
+                whole = False
+        ok = not bad and whole
+        ck.verdict(ok, rule, f, 'pattern-selector-matches-whole-name', (bad[0] if bad else calls[0]),
+                   'a pattern selector matches the whole instrument name (regex_match over begin..end)' if ok else
+                   'PatternPredicate::Match decides by %s: a view registered for a pattern selects every instrument whose name merely contains a match' %
+                   (strip_targs(bad[0]['c']) if bad else 'a regex_match over a part of the name'))
 
 
 def rule_r7(ck, prog, rule='C19.R7'):
@@ -638,12 +681,13 @@ def run(ck, prog):
     ck.doc('C19.R1', 'no string_view::data() into a call without the view\'s length', 10)
     ck.doc('C19.R2', 'Create*: enabled and ValidateInstrument gates; descriptor table; tracer/logger enabled gates', 26)
     ck.doc('C19.R3', 'MatchMeter / MatchInstrument decision tables; FindViews visits all; default view only when none matched; view shapes storage; each view shapes its own descriptor copy; the view\'s attribute filter reaches the storage', 10)
-    ck.doc('C19.R4', 'scope configurator: first match wins; stored closures own their captures', 3)
+    ck.doc('C19.R4', 'scope configurator: first match wins; stored closures own their captures; Build leaves the builder intact', 4)
     ck.doc('C19.R5', 'GetTracer/GetMeter/GetLogger: locked lookup-then-create on the stored identity', 6)
-    ck.doc('C19.R6', 'name/unit patterns equal the documented grammar (parsed normal form, exhaustive byte sets)', 4)
+    ck.doc('C19.R6', 'name/unit patterns equal the documented grammar (parsed normal form, exhaustive byte sets); validators and the pattern selector match the whole string', 5)
     ck.doc('C19.R7', 'every named constructor parameter of the providers and their contexts is used (configuration reaches the context)', 6)
     ck.doc('C06.R5', '(shared rule, see C06) registry writes in the per-view callback use a view-dependent key', 2)
     ck.doc('C07.R5', '(shared rule, see C07) the view\'s aggregation config reaches every CreateAggregation call of a storage', 2)
+    ck.doc('C08.R6', '(shared rule, see C08) every series key a synchronous storage builds from caller attributes goes through the view\'s attributes processor', 2)
     with ck.canary('C19.R1'):
         rule_r1(ck, prog, only='canary::c19::', observe_others=False)
     with ck.canary('C19.R4'):
@@ -661,4 +705,6 @@ def run(ck, prog):
     c06.rule_r5(ck, prog)
     from . import c07
     c07.rule_r5(ck, prog)
+    from . import c08
+    c08.rule_r6_processor_reaches_key(ck, prog)
     return {}
